@@ -110,7 +110,7 @@ def classify_spec_failure(step):
 
 
 def run(ctx):
-    n = 2500 if ctx["tier"] == "quick" else 60000
+    n = 2500 * common.boost() if ctx["tier"] == "quick" else 60000
     hist = run_histories(n, ctx["seed"])
     steps = 0
     aborts = Counter()
